@@ -23,6 +23,8 @@ def _cfg_for(name):
         a = pl.ADAPTERS[name]
         out = []
         ns = [3] if tier == "quick" else [3, 4]
+        if getattr(a, "n", None):
+            ns = [a.n]          # adapters that fix their own pool size (DropQuery: 2)
         slow = getattr(a, "slow", False)
         heavy = slow or name.startswith("QueryByCommittee[v") or name in ("BatchBALD", "GreedyBALD", "TypiClust")
         for n in ns:
